@@ -38,6 +38,7 @@ type Task struct {
 	ID     string
 	Lib    bool // created by a `go` statement inside the instrumented library
 	Parent *Task
+	Label  string      // what the task was spawned as (its first site)
 	Site   string      // last schedule point / blocking site
 	Ready  func() bool // only read by the scheduler while the task is parked; nil = runnable
 	Tag    string      // wait class of a conditional park ("quiesce", "cond", "")
@@ -216,7 +217,7 @@ func (s *Sim) SpawnChild(site string, fn func()) *Task {
 }
 
 func (s *Sim) spawn(id, site string, fn func(), lib bool, parent *Task) *Task {
-	t := &Task{ID: id, Lib: lib, Parent: parent, resume: make(chan struct{})}
+	t := &Task{ID: id, Lib: lib, Parent: parent, Label: site, resume: make(chan struct{})}
 	s.mu.Lock()
 	t.Born = s.Steps
 	s.alive[t] = struct{}{}
